@@ -889,7 +889,10 @@ func c11Gen(r *vRand, nq int) *c11Input {
 			ok = !ok || r.chance(1, 3)
 			ev := c11Event{Kind: "setok", Ok: ok}
 			if !ok {
-				ev.Mode = vPick(r, c11FModes)
+				// an outage: every query fails. "truncate" is no outage for the broken peer's status query, which is
+				// sent without ResponseHeader: fixed16 - cutting its tiny reply only removes the closing bracket and
+				// lmd's JSON reader accepts that; truncation stays a fault of rebuild queries (all carry fixed16)
+				ev.Mode = vPick(r, []string{"garbage", "refuse"})
 			}
 			in.Events = append(in.Events, ev)
 		case k < 41:
@@ -1023,7 +1026,7 @@ func c11Grow(prev c11Dataset, ver int, table string, delta int) c11Dataset {
 // c11EnumerateChanges: object count changes without restart and the broken state:
 // more hosts/services than cached found by the full scan (broken), waiting, grace time over or a restart
 // (rebuild, also failing at some query), fewer objects (only a full refresh notices), more host groups
-// (the per-minute refresh notices).
+// (the per-minute refresh notices), objects appearing in an empty hosts / services table (reloaded by the scan).
 func c11EnumerateChanges(r *vRand, nq int) []*c11Input {
 	res := []*c11Input{}
 	base := func() c11Dataset {
@@ -1069,6 +1072,25 @@ func c11EnumerateChanges(r *vRand, nq int) []*c11Input {
 			Events: []c11Event{tick, {Kind: "change"}, scan, minute, tick, full, tick}})
 		res = append(res, &c11Input{Datasets: []c11Dataset{first, fewer},
 			Events: []c11Event{tick, {Kind: "change"}, scan, faulty(full, 1+r.intn(nq-1), "garbage"), tick, full, tick}})
+	}
+	// nothing cached in hosts (and services) or in services only, then objects appear without restart: the full scan
+	// reloads at once (getMissingTimestamps: len(data) == 0) instead of declaring the peer broken
+	for _, parallel := range []bool{false, true} {
+		empty := base()
+		empty["hosts"], empty["services"], empty["comments"], empty["downtimes"] = [][2]string{}, [][2]string{}, [][2]string{}, [][2]string{}
+		withHosts := c11Grow(empty, 1, "hosts", 1+r.intn(3))
+		withBoth := c11Grow(withHosts, 1, "services", 1+r.intn(3))
+		noSvc := base()
+		noSvc["services"] = [][2]string{}
+		moreSvc := c11Grow(noSvc, 1, "services", 2)
+		for _, pair := range [][2]c11Dataset{{empty, withHosts}, {empty, withBoth}, {noSvc, moreSvc}} {
+			res = append(res, &c11Input{Parallel: parallel, Datasets: []c11Dataset{pair[0], pair[1]},
+				Events: []c11Event{tick, {Kind: "change"}, scan, tick}})
+			res = append(res, &c11Input{Parallel: parallel, Datasets: []c11Dataset{pair[0], pair[1]},
+				Events: []c11Event{tick, {Kind: "change"}, tick, {Kind: "setok", Mode: "garbage"}, tick, {Kind: "setok", Ok: true}, scan, minute}})
+		}
+		res = append(res, &c11Input{Parallel: parallel, Datasets: []c11Dataset{empty, withBoth, c11Grow(withBoth, 2, "hosts", 1)},
+			Events: []c11Event{tick, {Kind: "change"}, scan, {Kind: "change"}, scan, tick, full, tick}})
 	}
 	for _, table := range []string{"hostgroups", "servicegroups", "timeperiods", "contacts"} {
 		first := base()
